@@ -94,6 +94,7 @@ class Acc:
         self.extra = {}  # summed integer counters
         self.notes = set()
         self.caps = []
+        self.payload = []  # arbitrary picklable items handed back to the parent (e.g. newly reached states)
 
     # -- filling -----------------------------------------------------------
     def case(self, key=None, nontrivial=False, outcome=None, cls=None, sample=None):
@@ -137,6 +138,7 @@ class Acc:
         self.n_violations += other.n_violations
         self.notes |= other.notes
         self.caps.extend(other.caps)
+        self.payload.extend(other.payload)
         return self
 
     @property
